@@ -13,9 +13,9 @@ P = {
          "Same trusted base as C01. 'Any Err, never Ok' is required only where the documentation defines no outcome (entry holds a lower-level table).", "3/C02"),
  "C03": (True, "proptest: edge-biased inputs + generated programs of safe operations vs independent validity predicate and metamorphic truncation laws; both build profiles",
          "Exploration: ~1.3M generated constructor inputs/program steps per quick run (both overflow-checking and release builds) judged by a bit-level predicate written from the architecture definition, not from the crate. Shows the property on everything generated; cannot show absence.",
-         "Trusts proptest's generators/shrinker and the harness oracle (valid_v/valid_p, 10 lines). Inputs: all u64 (edge-biased), programs up to 24 steps over 46 operation kinds.", "3/C03"),
+         "Trusts proptest's generators/shrinker and the harness oracle (valid_v/valid_p, 10 lines). Inputs: all u64 (edge-biased), programs up to 24 steps over 48 operation kinds (incl. page/frame range iteration with the public start/end fields).", "3/C03"),
  "C04": (True, "proptest + exhaustive u16 enumeration vs independent bit-field codec (both directions)",
-         'Exploration plus exhaustive sub-spaces: ~300k generated canonical addresses / index tuples per quick run compared with an independent shift-and-mask codec in both directions; all 65536 u16 inputs of the index/offset constructors and the four levels are enumerated completely every run.',
+         'Exploration plus exhaustive sub-spaces, in both build profiles (debug assertions on and off): ~300k generated canonical addresses / index tuples per quick run and profile compared with an independent shift-and-mask codec in both directions; all 65536 u16 inputs of the index/offset constructors and the four levels are enumerated completely every run.',
          'Trusts the 5-line bit-field oracle and proptest. Index tuples are edge-biased over 0..512^4, not enumerated.', "3/C04"),
  "C05": (True, "proptest vs u128 position model of the contiguous canonical space; mutual-inverse laws; range iteration",
          'Exploration: ~480k generated (start,count,end) triples for addresses, pages of three sizes and table indices per quick run and profile, judged by a u128 position model of the contiguous canonical space, the three mutual-inverse laws and by iterating real a..b / a..=b ranges across the gap.',
@@ -42,7 +42,7 @@ P = {
          'Exhaustive for the finite parts (all 256 vectors through every access path; all 65536 (start,end) pairs x 21 range/slice forms; lidt operand) plus exploration of 30k handler-address x setter-program cases judged by an independent 16-byte gate decoder.',
          'Trusts the gate decoder (SDM fig. 6-8) and the name->vector table typed in from the manuals.', "3/C12"),
  "C13": (True, "PBT with simulated interrupt delivery into the real stubs; observed handler arguments and resume state",
-         'Exhaustive over all 65536 (lo,hi) installation ranges plus exploration of 120k simulated interrupt deliveries into the real x86-interrupt stubs (all 256 vectors, error codes, unaligned stack pointers, flag images) and 20k iretq round trips.',
+         'Exhaustive over all 65536 (lo,hi) installation ranges plus exploration of 120k simulated interrupt deliveries into the real x86-interrupt stubs (all 256 vectors, error codes, unaligned stack pointers, flag images incl. NT) and 20k iretq round trips.',
          "The hardware frame is built by harness assembly in ring 3: CS/SS are fixed to the process's selectors and privileged flag bits are excluded; diverging vectors 8/18 are left by a stack switch.", "3/C13"),
  "C14": (True, "stateful PBT (append histories x const capacities) vs Vec model; trapped lgdt",
          'Exploration: 40k append histories over the six monomorphised capacities (1,2,3,8,9,8192) and 20k raw-slice constructions, judged by a Vec model, the selector formula and the trapped lgdt operand.',
@@ -54,7 +54,7 @@ P = {
          "Exploration with every wrapper's real inline assembly executed and trapped: ~320k (prior content, argument, operation) cases per quick run over Cr0/2/3/4, Dr0-3/6/7, XCr0, Msr, Efer, Fs/Gs/KernelGs base, Star, LStar, SFMask, UCet, SCet, Pat, ApicBase, segment registers and bases, load_tss, mxcsr, rflags; the oracle is an emulated register-file model with register numbers/MSR indices/modelled-bit masks typed in from the manuals.",
          'Trusts the instruction decoder and the per-wrapper sound prior domains listed in the evidence assumptions; segment loads only with selectors that fault under Linux; XCR0/RFLAGS.IF via hooks H4/H2.', "3/C16"),
  "C17": (True, "generated nested-closure programs with emulated IF (trapped cli/sti/hlt + RFLAGS overlay hook)",
-         'Exploration in both build profiles: 40k generated nested-closure programs per profile run through the real without_interrupts with cli/sti/hlt trapped and IF emulated (hook H2 makes the IF=0 branch reachable); both initial IF states of enable_and_hlt enumerated, adjacency of sti and hlt checked on the trapped instruction addresses.',
+         'Exploration in both build profiles: 40k generated nested-closure programs per profile run through the real without_interrupts with cli/sti/hlt trapped and IF emulated (hook H2 makes the IF=0 branch reachable); both initial IF states of enable_and_hlt enumerated, adjacency of sti and hlt checked on the trapped instruction addresses; the closure's memory effects are sampled by the trap handler at the trapped cli/sti and must lie inside the interrupt-free window.',
          "'No interrupt window' is decided as adjacency in the instruction stream; interrupts are not injected.", "3/C17"),
  "C18": (True, "PBT with trapped in/out: opcode/DX/AL-AX-EAX vs device model",
          'Exploration in both build profiles (120k accesses per profile over all widths, access kinds, edge-biased ports, values and device replies); the thorough tier enumerates all 65536 ports x 3 widths x 3 access kinds.',
@@ -63,7 +63,7 @@ P = {
          'Complete enumeration on every run of all named constants (14 bitflags types via iter_names, MSR numbers, vectors, sizes, PAT, resets) against an independently typed manual table, all u16/u8 codec inputs exhaustively, and 100k generated DR7 / selector-error-code cases.',
          'The manual table itself is the trusted base (typed from the SDM/APM); a crate constant without a table row is reported as a label in the evidence.', "3/C19"),
  "C20": (True, "PBT on software MMU: constructor truth table; index-repetition formula for all 512 indices via hook",
-         'Exploration: 150k (recursive index, page) pairs over all 512 indices through hook H3 against the index-repetition formula; 20k constructor cases (recursive and near-recursive table addresses x CR3 contents x slot contents) against the documented truth table with the used index observed from software-MMU fault addresses; 8k histories on the running recursive mapper checking every touched recursive page.',
+         'Exploration: 150k (recursive index, page) pairs over all 512 indices through hook H3 against the index-repetition formula; 20k constructor cases (recursive and near-recursive table addresses x CR3 contents x slot contents) against the documented truth table, each followed by a second construction after a root switch inside the same function, with the used index observed from software-MMU fault addresses; 8k histories on the running recursive mapper checking every touched recursive page.',
          'Running recursive mapper limited to indices [1,31] and [65,160]; indices >= 256 only through the pure-function hook.', "3/C20"),
 }
 
@@ -102,7 +102,7 @@ def main():
         ],
         "checks": checks,
         "not_applicable": na,
-        "notes": "All checks are exploration-level property-based tests (see DESIGN.md). Known findings: KNOWN_FINDINGS.txt (currently none open; 13 fixed: lines, repaired by 10 fix: commits in /repo). Seeded breakages and which check catches them: seeded/ and DESIGN.md section 7.",
+        "notes": "All checks are exploration-level property-based tests (see DESIGN.md). Known findings: KNOWN_FINDINGS.txt (currently none open; 13 fixed: lines, repaired by 10 fix: commits in /repo plus one follow-up). Seeded breakages and which check catches them: seeded/ and DESIGN.md section 7.",
     }
     with open(os.path.join(ROOT, "MANIFEST.json"), "w") as f:
         json.dump(m, f, indent=1)
